@@ -6,6 +6,8 @@ CONSTANTS
   PidOps = {"$p1", "$p2", "$p3", "9999"}
   Sigs = {"TERM", "KILL", "INT", "HUP", "STOP", "TSTP", "CONT", "0"}
   JobsOpts = {"", "-l", "-p"}
+  KillLNums = {0, 1, 2, 3, 9, 15, 385, 386, 387, 393, 399}
+  FgSlots = {1, 2, 3}
   StartWith = "none"
 INVARIANT TableConsistent
 INVARIANT TableMirrorsProcesses
